@@ -2,6 +2,7 @@
 
 pub mod bfs;
 pub mod checks;
+pub mod conc;
 pub mod sim;
 pub mod world;
 
@@ -319,6 +320,27 @@ pub fn configs(prop: &str, thorough: bool) -> Vec<SimConfig> {
     v
 }
 
+/// Configurations whose every state is paired by the interleaving engine (all are searched to fixpoint).
+pub fn conc_configs(prop: &str, thorough: bool) -> Vec<SimConfig> {
+    let all = configs(prop, thorough);
+    let pick = |names: &[&str]| -> Vec<SimConfig> { all.iter().filter(|c| names.contains(&c.name.as_str())).cloned().collect() };
+    match (prop, thorough) {
+        ("C02", false) => pick(&["n2-full-preempt-true", "n2-lax-is-open"]),
+        ("C02", true) => pick(&["n2-full-preempt-true", "n2-full-preempt-false", "n2-lax-is-open", "n2-lax-is-open-max0", "n2-upgrade", "n2-split-handshake-preempt-true", "n2-two-origins"]),
+        ("C03" | "C19", false) => pick(&["n2-full-preempt-true", "n2-full-preempt-false"]),
+        ("C03" | "C19", true) => pick(&["n2-full-preempt-true", "n2-full-preempt-false", "n2-split-handshake-preempt-true", "n2-split-handshake-preempt-false", "n2-two-origins"]),
+        ("C04", false) => pick(&["n2-full-preempt-true"]),
+        ("C04", true) => pick(&["n2-full-preempt-true", "n2-full-preempt-false", "n2-two-origins"]),
+        ("C05", false) => pick(&["n2-timeout-None"]),
+        ("C05", true) => pick(&["n2-timeout-None", "n2-timeout-Some(0)", "n2-timeout-Some(1)", "n2-lax-is-open"]),
+        ("C06", false) => pick(&["n2-host"]),
+        ("C06", true) => pick(&["n2-host", "n2-scheme", "n2-port", "n2-wss-vs-https"]),
+        ("C15", false) => pick(&["burst-k2-max1-close"]),
+        ("C15", true) => pick(&["burst-k2-max1-close", "mixed-n2-max1", "burst-k3-max1", "burst-k3-max2"]),
+        _ => vec![],
+    }
+}
+
 pub fn opts_for(prop: &'static str, thorough: bool) -> Opts {
     Opts {
         props: match prop {
@@ -330,6 +352,7 @@ pub fn opts_for(prop: &'static str, thorough: bool) -> Opts {
         audit_every: std::env::var("HDMC_AUDIT_EVERY").ok().and_then(|s| s.parse().ok()).unwrap_or(if thorough { 1 } else { 8 }),
         max_states: if thorough { 30_000_000 } else { 3_000_000 },
         max_wall_s: std::env::var("HDMC_MAX_WALL").ok().and_then(|s| s.parse().ok()).unwrap_or(if thorough { 1500.0 } else { 40.0 }),
+        collect_states: false,
     }
 }
 
@@ -394,6 +417,41 @@ pub fn replay_file(path: &str, prop: &'static str) -> i32 {
         println!("MACHINERY-ERROR replay file has no config");
         return 2;
     };
+    if rp.get("engine").and_then(|x| x.as_str()) == Some("poolmc-conc") {
+        let hist: Vec<Ev> = rp.get("history").and_then(|h| h.as_array()).map(|a| a.iter().filter_map(|x| x.as_str().and_then(Ev::parse)).collect()).unwrap_or_default();
+        let pair: Vec<Ev> = rp.get("pair").and_then(|h| h.as_array()).map(|a| a.iter().filter_map(|x| x.as_str().and_then(Ev::parse)).collect()).unwrap_or_default();
+        let schedule: Vec<u8> = rp.get("schedule").and_then(|h| h.as_array()).map(|a| a.iter().filter_map(|x| x.as_u64().map(|v| v as u8)).collect()).unwrap_or_default();
+        if pair.len() != 2 {
+            println!("MACHINERY-ERROR replay file has no operation pair");
+            return 2;
+        }
+        std::panic::set_hook(Box::new(|_| {}));
+        let r1 = conc::replay(&cfg, &hist, pair[0], pair[1], &schedule);
+        let r2 = conc::replay(&cfg, &hist, pair[0], pair[1], &schedule);
+        let _ = std::panic::take_hook();
+        let (Ok((v1, log1)), Ok((v2, log2))) = (r1, r2) else {
+            println!("MACHINERY-ERROR the recorded interleaving does not replay");
+            return 2;
+        };
+        if v1 != v2 || log1 != log2 {
+            println!("MACHINERY-ERROR replay diverged between two executions");
+            return 2;
+        }
+        println!("config: {}", cfg.describe());
+        println!("history: [{}]", hist_text(&hist));
+        println!("{log1}");
+        let mine: Vec<_> = v1.iter().filter(|v| v.prop == prop || (prop == "C19" && v.prop == "C03")).collect();
+        for v in &mine {
+            println!("  {} / {}: {}", v.prop, v.sub, v.msg);
+        }
+        return if mine.is_empty() {
+            println!("replay holds");
+            0
+        } else {
+            println!("VIOLATION property={prop} replay={path}");
+            1
+        };
+    }
     let hist: Vec<Ev> = rp
         .get("history")
         .and_then(|h| h.as_array())
@@ -567,6 +625,50 @@ pub fn run_into(run: &mut Run, prop: &'static str, thorough: bool) -> Option<Str
             run.violation(sig, format!("{}: {} — after [{}] in config {}", f.viol.sub, f.viol.msg, hist_text(&f.hist), cfg.describe()), replay_json(cfg, &f.hist));
         }
     }
+    // E6: intra-poll interleavings of two concurrent operations, from every state of selected configurations
+    let conc_props: Vec<&'static str> = if prop == "C19" { vec!["C03"] } else { vec![prop] };
+    let mut conc_cfgs_json = vec![];
+    let (mut c_pairs, mut c_inter, mut c_only, mut c_states) = (0u64, 0u64, 0u64, 0u64);
+    for cfg in conc_configs(prop, thorough) {
+        let out = conc::explore(&cfg, &conc_props, if thorough { 900.0 } else { 45.0 });
+        let s = &out.stats;
+        println!(
+            "  [interleavings {}] states={} pairs={} interleavings={} max_decision_points={} max_per_pair={} equal_to_sequential={} concurrency_only={} (distinct {}) wall={:.1}s{}",
+            cfg.name, s.states, s.pairs, s.interleavings, s.max_decision_points, s.max_interleavings_of_a_pair, s.outcomes_equal_to_a_sequential_state, s.concurrency_only_states, s.distinct_concurrency_only_states, s.wall_s,
+            s.capped.as_ref().map(|c| format!(" CAPPED: {c}")).unwrap_or_default()
+        );
+        c_pairs += s.pairs;
+        c_inter += s.interleavings;
+        c_only += s.concurrency_only_states;
+        c_states += s.states;
+        if s.capped.is_some() {
+            exhaustive = false;
+        }
+        conc_cfgs_json.push(json!({"config": cfg.describe(), "states_paired": s.states, "operation_pairs": s.pairs, "interleavings_executed": s.interleavings,
+            "max_decision_points": s.max_decision_points, "max_interleavings_of_one_pair": s.max_interleavings_of_a_pair, "pairs_with_more_than_two_interleavings": s.pairs_with_a_choice,
+            "outcomes_equal_to_a_sequential_state": s.outcomes_equal_to_a_sequential_state, "outcomes_no_sequential_order_reaches": s.concurrency_only_states,
+            "distinct_states_no_sequential_order_reaches": s.distinct_concurrency_only_states, "continued_to_quiescence": s.drains, "probe_requests": s.probes,
+            "handoffs_checked": s.handoffs_checked, "yield_sites_reached": s.sites.iter().collect::<Vec<_>>(), "capped": s.capped, "wall_s": s.wall_s, "sample": s.sample}));
+        if let Some(m) = out.machinery_error {
+            machinery_error = Some(format!("interleaving engine, config {}: {m}", cfg.name));
+        }
+        for f in out.found {
+            if prop == "C19" && !f.hist.iter().any(|e| matches!(e, Ev::Cancel(_))) && !matches!(f.pair.0, Ev::Cancel(_)) && !matches!(f.pair.1, Ev::Cancel(_)) {
+                continue;
+            }
+            let sig = format!("{}/{} concurrent config={} witness=[{}] pair=({} || {}) schedule={:?}", f.viol.prop, f.viol.sub, cfg.name, hist_text(&f.hist), f.pair.0.text(), f.pair.1.text(), f.schedule);
+            let mut rp = replay_json(&cfg, &f.hist);
+            rp["engine"] = json!("poolmc-conc");
+            rp["pair"] = json!([f.pair.0.text(), f.pair.1.text()]);
+            rp["schedule"] = json!(f.schedule);
+            run.violation(sig, format!("{}: {} — after [{}], operations {} and {} executed concurrently and interleaved as: {} (config {})", f.viol.sub, f.viol.msg, hist_text(&f.hist), f.pair.0.text(), f.pair.1.text(), f.steps, cfg.describe()), rp);
+        }
+    }
+    run.cov("interleaving_states_paired", c_states);
+    run.cov("interleaving_operation_pairs", c_pairs);
+    run.cov("interleavings_executed", c_inter);
+    run.cov("interleaving_outcomes_no_sequential_order_reaches", c_only);
+    run.cov("interleaving_configurations", conc_cfgs_json);
     run.cov("states", tot.states);
     run.cov("transitions", tot.transitions);
     run.cov("traces_validated_against_impl", tot.transitions);
@@ -585,7 +687,39 @@ pub fn run_into(run: &mut Run, prop: &'static str, thorough: bool) -> Option<Str
     run.cov("configurations", per_cfg);
     run.cov("samples", samples);
     run.cov("explanation", "states are event histories of the real ConnectionPoolService (no separate model): every transition is one call into the crate (issue / poll / drop / background-task poll) or one environment answer; each configuration is searched breadth-first to fixpoint; merging by fingerprint is validated by a one-step successor audit on every merge");
-    run.assume("atomicity granularity is one poll / one drop (single-threaded interleavings); intra-poll pre-emption on a multi-threaded runtime is not covered");
+    run.assume("breadth-first search: atomicity granularity is one poll / one drop. Intra-poll pre-emption on a multi-threaded runtime is covered by the interleaving engine for TWO concurrent operations from every state of the listed N=2 configurations, interleaved at every pool-lock acquisition and waiter-channel operation; three or more overlapping operations, and interleavings inside tokio's oneshot channel or inside one critical section, are not covered");
     run.assume("the harness connection models hyper's sender by open/busy/upgraded flags; dials, handshakes, exchanges and busy connections eventually resolve (fairness for C03)");
     machinery_error
+}
+
+/// Development entry point: `hdmc CONC` with HDMC_CONC_PROP=<ID> (configs of that property, N=2 to fixpoint only).
+pub fn conc_cli() -> i32 {
+    std::panic::set_hook(Box::new(|_| {}));
+    let prop: &'static str = Box::leak(std::env::var("HDMC_CONC_PROP").unwrap_or_else(|_| "C03".into()).into_boxed_str());
+    let filter = std::env::var("HDMC_CONC_CFG").ok();
+    let mut rc = 0;
+    for cfg in configs(prop, false) {
+        if cfg.max_requests != 2 || cfg.max_depth.is_some() {
+            continue;
+        }
+        if let Some(f) = &filter {
+            if !cfg.name.contains(f.as_str()) {
+                continue;
+            }
+        }
+        let out = conc::explore(&cfg, &["C02", "C03", "C04", "C05", "C06", "C15"], 600.0);
+        let s = &out.stats;
+        println!("[{}] states={} pairs={} interleavings={} max_points={} max_inter={} pairs_with_choice={} seq_equal={} conc_only={} (distinct {}) drains={} probes={} handoffs={} wall={:.1}s capped={:?}\n   sites={:?}\n   sample={:?}",
+            cfg.name, s.states, s.pairs, s.interleavings, s.max_decision_points, s.max_interleavings_of_a_pair, s.pairs_with_a_choice, s.outcomes_equal_to_a_sequential_state,
+            s.concurrency_only_states, s.distinct_concurrency_only_states, s.drains, s.probes, s.handoffs_checked, s.wall_s, s.capped, s.sites, s.sample);
+        if let Some(m) = &out.machinery_error {
+            println!("MACHINERY-ERROR {m}");
+            rc = 2;
+        }
+        for f in &out.found {
+            println!("  FOUND {}/{}: {} — after [{}] pair {} ∥ {} schedule {:?}: {}", f.viol.prop, f.viol.sub, f.viol.msg, hist_text(&f.hist), f.pair.0.text(), f.pair.1.text(), f.schedule, f.steps);
+            rc = rc.max(1);
+        }
+    }
+    rc
 }
